@@ -302,6 +302,10 @@ def scenarios(ctx):
         k = rnd.randint(2, 3)
         out.append(dict(stored=stored, pool="output", bs=2, n=2, seed=rnd.randint(1, 2 ** 31 - 1), extra=[], keep_sampler=True,
                         acts=[["run", k], ["run", k], ["remove", gone], ["run", k]]))
+    # F37 (repaired): one sampler object; a run in which the simulator is loaded for every batch (an un-stored summary is requested
+    # and computed from it); the simulator's store is removed; rerun - the simulator has to run again
+    out.append(dict(stored=["sim", "d"], pool="output", bs=1, n=1, seed=1128080741, keep_sampler=True, extra=["S"],
+                    acts=[["run", 3], ["run", 2], ["remove", "sim"], ["run", 3]], pinned="F37 history (fixed)"))
     # on-disk pools opened from a pickle that is older than the data files (saved, used further, not saved again)
     for stored in (STATED if not ctx.quick else [["sim"], ["S", "d"], ["sim", "S", "d", "t1", "t2"]]):
         k1, k2, k3 = rnd.randint(1, 2), rnd.randint(3, 4), rnd.randint(5, 7)
